@@ -110,6 +110,29 @@ def build_obligation(inst):
                 exp.append(C.c_where(eq, Lc[b], -float("inf")) if eq is not None else Lc[b])
             pairs.append((got, exp))
             return pairs
+        if kind == "delta_independent":
+            # Independent(Delta) over a plate: sum_i Delta(x_i = x[i]) - the log-density is counted once per plate
+            # element, whether or not it mentions the plate (round-6 seeded change)
+            _, n, ld_on_plate = inst
+            from funsor.terms import Independent
+            P = mk.array("p", (n,), "real")
+            LD = mk.array("ld", (n,) if ld_on_plate else (), "real")
+            X = mk.array("x", (n,), "real")
+            plate = OrderedDict(i=Bint[n])
+            d = Delta("x_i", Tensor(P, plate), Tensor(LD, plate) if ld_on_plate else Tensor(LD))
+            r = Independent(d, "x", "i", "x_i")
+            import z3
+            side = set(r.inputs) == {"x"}
+            pairs = [(z3.BoolVal(side) if mk.symbolic else side, None)]
+            r = r(x=Tensor(X))
+            Pc, Lc, Xc = _cells(P), _cells(LD), _cells(X)
+            eq = None
+            for k in range(n):
+                c = Xc[k] == Pc[k]
+                eq = c if eq is None else C.c_and(eq, c)
+            tot = C.fold("add", [Lc[k] if ld_on_plate else Lc[()] for k in range(n)])
+            pairs.append(([result_cells(r, {})[()]], [C.c_where(eq, tot, -float("inf"))]))
+            return pairs
         if kind in ("delta_reduce", "delta_integrate"):
             # unit-mass Delta: (Delta + f).reduce(logaddexp, v) == f(v=p) == Integrate(Delta, f, v)
             _, batch, point_kind = inst
@@ -298,6 +321,7 @@ def instances(tier, seed):
             out.append(("delta_reduce", batch, pk))
             out.append(("delta_integrate", batch, pk))
     out += [("delta_eval_ld", ()), ("delta_eval_ld", (2,))]
+    out += [("delta_independent", n, ldp) for n in (1, 2, 3) for ldp in (False, True)]
     for bx, by in ((OrderedDict(), OrderedDict()), (OrderedDict(i=2), OrderedDict(j=3)), (OrderedDict(i=2), OrderedDict(i=2)), (OrderedDict(i=2), OrderedDict())):
         for subset in (("x",), ("y",), ("x", "y")):
             out.append(("delta_integrate_joint", bx, by, subset))
